@@ -219,10 +219,13 @@ class Term:
     """
 
     def __init__(self, *components):
+        # Every term works on its own (shallow) copies of the components: operators such as '/',
+        # ':' or '**' build several terms from one parsed factor and each term sets the type,
+        # coding and data of its components independently.
         self.components = []
         for component in components:
             if component not in self.components:
-                self.components.append(component)
+                self.components.append(copy(component))
         self.data = None
         self.kind = None
         self.name = ":".join([str(component.name) for component in self.components])
